@@ -89,9 +89,15 @@ def run_history(ctx, R, rng, cache, nops, script=None):
                 arg = rng.randint(-8, 25)
             elif op in ('contains', 'after', 'before'):
                 L0 = model_list(m)
-                arg = [U.iso(rng.choice(L0) if (L0 and rng.random() < .5) else rnd_date(rng)), rng.random() < .5]
+                # members, explicit dates (listed or excluded) and instants of the exclusion rules are the interesting arguments
+                pool = list(m['rdate']) + list(m['exdate']) + [x for l in m['exrule'] for x in l[:6]]
+                r_ = rng.random()
+                pick = rng.choice(L0) if (L0 and r_ < .4) else (rng.choice(pool) if (pool and r_ < .7) else rnd_date(rng))
+                arg = [U.iso(pick), rng.random() < .5]
             elif op == 'between':
-                a, b = sorted([rnd_date(rng), rnd_date(rng)])
+                L0 = model_list(m)
+                cands = [rnd_date(rng), rnd_date(rng)] if (not L0 or rng.random() < .4) else [rng.choice(L0), rng.choice(L0 + [rnd_date(rng)])]
+                a, b = sorted(cands)
                 arg = [U.iso(a), U.iso(b), rng.random() < .5]
             elif op in ('resume_live', 'resume_old'):
                 arg = rng.randint(1, 40)
@@ -225,6 +231,18 @@ def directed(ctx, R):
                 script.append(['iter_full', None])
                 run_history(ctx, R, random.Random(0), cache, 0, script)
                 ctx.count('directed_histories')
+    for cache in (False, True):
+        for full_first in (False, True):
+            x = st + D.timedelta(days=4)
+            script = [['rrule', U.kw_json({'freq': R.DAILY, 'dtstart': st, 'count': 12})], ['rdate', U.iso(x + D.timedelta(hours=1))],
+                      ['exrule', U.kw_json({'freq': R.DAILY, 'dtstart': st + D.timedelta(hours=1), 'count': 8})], ['rdate', U.iso(st + D.timedelta(days=30))]] + \
+                     ([['iter_full', None]] if full_first else []) + \
+                     [['contains', [U.iso(x + D.timedelta(hours=1)), False]], ['contains', [U.iso(x), False]], ['contains', [U.iso(st + D.timedelta(days=30)), False]],
+                      ['between', [U.iso(x), U.iso(x), True]], ['between', [U.iso(st), U.iso(st + D.timedelta(days=30)), True]],
+                      ['between', [U.iso(st), U.iso(st + D.timedelta(days=30)), False]], ['between', [U.iso(x), U.iso(st + D.timedelta(days=11)), True]],
+                      ['after', [U.iso(st + D.timedelta(days=30)), True]], ['before', [U.iso(st), True]], ['check', None]]
+            run_history(ctx, R, random.Random(0), cache, 0, script)
+            ctx.count('directed_histories')
     for cache in (False, True):
         script = [['rrule', U.kw_json({'freq': R.WEEKLY, 'dtstart': st, 'count': 5})],
                   ['exrule', U.kw_json({'freq': R.DAILY, 'dtstart': st + D.timedelta(days=1), 'count': 20})],
